@@ -2,6 +2,11 @@
    Buffer accesses go through [sub] (checked: Fault outside the allocation), asserts are
    AssertFail.  The transport below (network_read) is abstract here: [nbr_wait] says which
    network_read it starts, [nbr_callback_read] takes what that read reported.
+   The started read ([WRead off max min], the act returned by [nbr_wait]) is what netbuf_read_wait
+   hands to WHICHEVER transport is configured: network_read(R->s, ...) for a reader on a descriptor,
+   (netbuf_read_ssl_func)(R->ssl, ...) for one made by netbuf_read_init2(-1, ctx) - the C computes
+   the same three arguments in both branches; likewise [nbr_cancel] stands for network_read_cancel
+   or (netbuf_read_ssl_cancel_func).  The C driver runs every scenario over both.
    Also the abstract stream (spec).  No proofs in this file. *)
 From Coq Require Import NArith ZArith List Bool Arith.
 From LCP Require Import Base.CheckedMem Net.NetRW.
